@@ -32,6 +32,7 @@ const (
 	verifTickCliTimeoutResolved
 	verifTickSrvReqTimer
 	verifTickSrvIdle
+	verifTickSrvOpening
 )
 
 func verifTick(which int)                                                  {}
